@@ -336,3 +336,30 @@ def gen_collect(rnd):
         {"name": "sink", "in": ["EvF"], "nw": 1, "acts": [{"k": "collect", "types": ["EvF"] * (rounds * groups)}, {"k": "ret", "type": "StopEvent", "result": "collected"}]},
     ]
     return {"family": "collect", "steps": steps, "timeout": 60.0, "externals": [], "meta": {"shape": shape, "rounds": rounds, "groups": groups, "nw": nw, "n_events": len(evs)}}
+
+
+# ---------------------------------------------------------------- deterministic, idempotent family (C12 / C13 / C31)
+def gen_det(rnd, *, handler=None, waits=False):
+    """Steps communicate only through returned events (atomic with completion) and idempotent state writes, so that
+    re-executing any not-yet-completed invocation cannot change the final result / state."""
+    m = rnd.randint(2, 3)
+    steps = [{"name": "start", "in": ["Go"], "nw": 1,
+              "acts": [{"k": "sleep", "d": rnd.choice([0, 0.5, 1])}, {"k": "state", "op": "set", "key": "started"}, {"k": "ret", "type": "EvA"}]}]
+    handler = (rnd.random() < 0.35) if handler is None else handler
+    for i in range(m):
+        fails = rnd.choice([0, 0, 1, 2])
+        always = handler and i == m - 1
+        att = (fails + 1) if not always else rnd.randint(1, 3)
+        pol = {"wait": {"k": "fixed", "w": rnd.choice([0, 0.5, 1])}, "stop": {"k": "attempt", "n": att}} if (fails or always) else None
+        steps.append({"name": f"a{i}", "in": ["EvA"], "nw": rnd.randint(1, 2), "retry": pol,
+                      "acts": [{"k": "sleep", "d": [rnd.choice([0, 0.5, 1, 2]) for _ in range(att)]},
+                               {"k": "fail", "n": (-1 if always else fails), "exc": "E1"},
+                               {"k": "state", "op": "set", "key": f"a{i}"}, {"k": "ret", "type": "EvB", "pay": {"src": f"a{i}"}}]})
+    if handler:
+        steps.append({"name": "h", "handler": {"for": [f"a{m - 1}"], "max": rnd.randint(1, 2)}, "in": [],
+                      "acts": [{"k": "sleep", "d": rnd.choice([0, 1])}, {"k": "state", "op": "set", "key": "recovered"}, {"k": "ret", "type": "EvB", "pay": {"src": "h"}}]})
+    steps.append({"name": "join", "in": ["EvB"], "nw": rnd.randint(1, 2),
+                  "acts": [{"k": "sleep", "d": rnd.choice([0, 0.5])}, {"k": "collect", "types": ["EvB"] * m}, {"k": "state", "op": "set", "key": "joined", "val": "done"},
+                           {"k": "ret", "type": "EvC", "v_const": "joined"}]})
+    steps.append({"name": "fin", "in": ["EvC"], "nw": 1, "acts": [{"k": "sleep", "d": rnd.choice([0, 1, 2])}, {"k": "ret", "type": "StopEvent", "result": "const"}]})
+    return {"family": "det", "steps": steps, "timeout": None, "externals": [], "meta": {"m": m, "handler": handler}}
